@@ -10,7 +10,7 @@ RULE = ('interleavings of (construct from token string | parse format | create D
         'over more than 256 distinct keys per history so that every LRU cache evicts; each call is compared with the same call made after clearing every cache, under the option values in force at that '
         'point; objects (and Arrays) made from earlier objects by every constructor spelling and both then used, against the same program on plain strings / lists; calls that have nothing to do with the options '
         '(printing, representations, copies, queries, searches with explicit arguments - accepted and refused) under every option configuration: the option values and the numbering-dependent method bindings must be '
-        'what the program set, and constructions that follow the options are compared with their documented outcome; option reads during cached calls are logged and must be inside the statically computed read set. non-trivial = a call repeated after an option change or an eviction; distinct by history')
+        'what the program set, and constructions that follow the options are compared with their documented outcome; option reads during cached calls are logged and must be inside the statically computed read set; refused calls of every kind and route (malformed tokens, values that do not fit, failures inside nested bits= token strings, over-deep nestings, refused option assignments) interleaved, each followed sooner or later by constructions from token strings no cache has seen, whose bits come from a plain reference; external mutable sources (bitarrays of both endiannesses, results of tobitarray(), buffers, array.array, memoryviews, BytesIO, lists) used for several objects by every route and then changed in place, as are the objects: every object keeps the bits (and hash) it was made with. non-trivial = a call repeated after an option change or an eviction; distinct by history')
 TRUSTED_BASE = ['translator tools/gen/callgraph.py (over-approximating static call graph; its read sets are validated dynamically on every run) and tools/gen/options.py']
 ASSUMPTIONS = ['functools.lru_cache returns a stored value only for an equal key (modelled as an association list with arbitrary eviction)']
 
@@ -61,7 +61,8 @@ def generate(out):
     info['data'] = {'cached_functions': res, 'lsb0_rows': len(tables['lsb0_methods'])}
     return info
 
-TOKENS = ['uint:{n}={v}', 'int:{n}=-{v}', 'hex={h}', 'bin={b}', '0x{h}', '0b{b}', 'e4m3mxfp={f}', 'e5m2mxfp={f}', 'ue={v}', 'se=-{v}', 'uie={v}', 'float:32={f}', 'p4binary={f}', 'bool=1', 'pad:{n}']
+TOKENS = ['uint:{n}={v}', 'int:{n}=-{v}', 'hex={h}', 'bin={b}', '0x{h}', '0b{b}', 'e4m3mxfp={f}', 'e5m2mxfp={f}', 'ue={v}', 'se=-{v}', 'uie={v}', 'float:32={f}', 'p4binary={f}', 'bool=1', 'pad:{n}',
+          'bits=0x{h}', 'bits=bits=uint:{n}={v}', 'bits=ue={v}', 'bits=e4m3mxfp={f}', 'bits=bits=bits=e5m2mxfp={f}', 'bits=se=-{v}']      # token strings inside 'bits=' tokens (parsed by a nested call)
 FORMATS = ['uint:{n}, hex:8', '2*(uint:{n}, bin:3)', '{n}*uint:5', '>{n}h', '<hb{n}B', 'bits:{n}, ue, se', 'int:{n}, pad:3, bytes:2', 'hex:{m}']
 
 # ---------------- objects made from earlier objects, then both used (the result of a construction never depends on, nor interferes with, an earlier result) ----------------
@@ -174,6 +175,230 @@ def gen_optprobe(rng):
     return {'op': 'optprobe', 'what': rng.choice(OPTPROBES), 'h': format(rng.randrange(1, 1 << 16), '04x'), 'b': rand_bits(rng, rng.choice([3, 5, 9]), 'rand'), 'v': rng.randrange(1, 5000),
             'f': rng.choice([1e30, 3e38, 7e7, 1e12, 123456789.0]), 'route': rng.choice(['token', 'kw', 'pack', 'build', 'array', 'setattr'])}
 
+# ---------------- calls that FAIL, and constructions from never-seen token strings after them ----------------
+# A refused call (of any kind, through any route) must leave nothing behind: the constructions that follow - in particular those whose strings no cache has seen yet -
+# succeed and give the bits their tokens spell (reference: tok_ref, plain Python), under every option configuration, and the same in a fresh interpreter.
+BAD_TOKENS = ['0x{h}zz', '0b{b}2', '0o{o}9', 'hex={h}xyz', 'bin={b}012', 'oct=8{o}', 'uint:8={big}', 'int:4=-{nine}', 'uint:3={eight}', 'bool={two}', 'nosuch{k}=1', 'uint8x={k}', 'uint:{n}', 'hex', 'bits', 'bits:7=0x{hh}',
+              'hex:5={h}', 'float:17=1.0', 'uint:-3={k}', 'uint:8=abc{k}', 'float:32=one{k}', 'int:8={k}.5', 'ue=-{one}', 'se=x{k}', 'uie=-{one}', '0xg{h}', 'e4m3mxfp=x{k}', 'bool:2=1', 'uintle:12={k}', 'bfloat:8=1.0',
+              'int:0=0', 'uint:8=-{one}', '=', '0x', ':', 'uint:={k}', 'bits=bits', '0b', 'float={k}.0', 'bin:3=01', 'uint:8={big}', 'bits:{n}=0xzz{h}', 'int:{n}=0xq']
+REFUSED_STR_HOWS = ['ctor', 'ctor', 'ctor', 'ctor_after', 'ctor_before', 'bits_kw', 'bits_kw', 'setter', 'setter', 'append', 'prepend', 'iadd', 'add', 'radd', 'pack_fmt', 'pack_bits', 'pack_kw', 'join', 'fromstring', 'build',
+                    'find', 'contains', 'insert', 'setslice', 'eq', 'ne', 'startswith', 'replace', 'overwrite', 'and', 'parse', 'readto']
+REFUSED_CALLS = ['kw_hex_bad', 'kw_bin_bad', 'kw_oct_bad', 'kw_uint_big', 'kw_int_small', 'kw_uint_nolen', 'kw_float_len', 'kw_bytes_len', 'kw_bytes_off', 'neg_len', 'neg_int', 'unknown_kw', 'kw_bool', 'kw_ue_neg', 'bits_len',
+                 'nofile', 'ba_off', 'auto_kw', 'float_obj', 'obj', 'kw_len_mismatch', 'kw_e4m3_str', 'kw_float_str', 'kw_uint_neg', 'kw_len_only_neg', 'kw_bytes_str', 'kw_se_str', 'kw_bfloat_len', 'kw_offset_hex',
+                 'setter_uint', 'setter_hex', 'setter_int', 'setter_bin', 'pack_big', 'pack_few', 'pack_many', 'pack_nokw', 'pack_unknown', 'pack_unbalanced', 'pack_floatlen', 'pack_badval', 'pack_few2', 'pack_few3',
+                 'pack_list_few', 'pack_kwbad', 'dtype_unknown', 'dtype_neg', 'dtype_floatlen', 'dtype_bool2', 'dtype_twice', 'dtype_scale0', 'dtype_empty', 'dtype_lenstr', 'dtype_build_big', 'dtype_e3m2_len',
+                 'array_unknown', 'array_big', 'array_str', 'array_nolen', 'array_ue', 'array_append_big', 'array_float_bad', 'array_setitem', 'read_past', 'read_unknown', 'readlist_unknown', 'unpack_long', 'read_neg',
+                 'pos_big', 'index', 'unpack_unknown', 'readlist_kw', 'unpack_kw', 'pack_none', 'fmt_unbalanced', 'fmt_colon', 'fmt_mult',
+                 'opt_mxfp_bad', 'opt_mxfp_bad', 'opt_del', 'opt_lsb0_badbool', 'opt_bytealigned_badbool']        # (refused assignments to the module options: the values in force stay what the program set)
+DEEP = [600, 900, 1500]          # 'bits=' nested this deep is beyond any interpreter's recursion limit: refused one way or another, and nothing may be left behind
+
+def gen_refused(rng, pool=None, deep=None):
+    cls = rng.choice(CLASSES)
+    r = rng.random()
+    if deep or (deep is None and r < 0.05):
+        return {'op': 'refused', 'how': rng.choice(REFUSED_STR_HOWS), 'cls': cls, 'pre': '', 'depth': rng.choice(DEEP), 'bad': rng.choice(['0x1', '0b1', 'uint:8=3', '0xzz']), 'post': ''}
+    if r < 0.6:
+        k = rng.randrange(0, 10 ** 6)
+        bad = rng.choice(BAD_TOKENS).format(h=format(rng.getrandbits(4 * rng.choice([1, 2, 5, 8])), 'x'), b=format(rng.getrandbits(rng.choice([1, 3, 8, 17])), 'b'), o=format(rng.getrandbits(9), 'o'), big=256 + k, nine=9 + k, eight=8 + k,
+                                            two=2 + k, k=k, n=rng.choice([3, 8, 16, 33]), hh=format(rng.getrandbits(8), '02x'), one=1 + k)
+        valid = (lambda: rng.choice(pool) if pool and rng.random() < 0.6 else rng.choice(['0b1', '0xab', 'uint:8=7', 'bits=0x0f']))
+        return {'op': 'refused', 'how': rng.choice(REFUSED_STR_HOWS), 'cls': cls, 'pre': valid() + ', ' if rng.random() < 0.3 else '', 'depth': rng.choice([0, 0, 1, 1, 1, 2, 3, 5, 9]), 'bad': bad,
+                'post': ', ' + valid() if rng.random() < 0.15 else ''}
+    return {'op': 'refused', 'call': rng.choice(REFUSED_CALLS), 'cls': cls, 'k': rng.randrange(0, 10 ** 6)}
+
+def refused_string(st): return st['pre'] + 'bits=' * st['depth'] + st['bad'] + st['post']
+
+# token strings with a plain-Python reference: a token is a JSON list, a string a list of tokens
+def rand_tok(rng, depth=0, unique=False):
+    r = rng.random()
+    if depth > 0:
+        inner = rand_tok(rng, depth - 1, unique)
+        return ['bits', inner, rng.random() < 0.25]
+    if unique or r < 0.3:
+        nd = rng.choice([10, 11, 12, 16]) if unique else rng.choice([1, 2, 3, 8])
+        return ['hex', format(rng.getrandbits(4 * nd), f'0{nd}x'), rng.choice(['prefix', 'prefix', 'name', 'len'])]
+    if r < 0.42:
+        n = rng.choice([1, 3, 7, 8, 9, 17, 40])
+        return ['bin', format(rng.getrandbits(n), f'0{n}b'), rng.choice(['prefix', 'prefix', 'name', 'len'])]
+    if r < 0.5:
+        nd = rng.choice([1, 2, 5])
+        return ['oct', format(rng.getrandbits(3 * nd), f'0{nd}o'), rng.choice(['prefix', 'name', 'len'])]
+    if r < 0.68:
+        name = rng.choice(['uint', 'uint', 'uintbe', 'uintle', 'uintne', 'int', 'int', 'intbe', 'intle', 'intne'])
+        n = rng.choice([8, 16, 24, 32, 64]) if name[-2:] in ('be', 'le', 'ne') else rng.choice([1, 2, 7, 8, 9, 12, 31, 32, 33, 64, 65])
+        if name.startswith('int') and n == 1: n = 2
+        v = rng.choice([0, 1, (1 << (n - 1)) - 1, rng.getrandbits(n - 1)])
+        if name.startswith('int') and rng.random() < 0.5: v = -v - 1
+        return ['int', name, n, v, rng.random() < 0.2]
+    if r < 0.75: return ['bool', rng.choice([0, 1])]
+    if r < 0.82: return ['pad', rng.choice([0, 1, 3, 8, 13])]
+    if r < 0.92: return ['float', rng.choice(['float', 'floatbe', 'floatle', 'floatne']), rng.choice([16, 32, 64]), rng.choice([0.0, 1.5, -2.0, 0.15625, 1024.0, -0.5, 3.0])]
+    return ['bits', rand_tok(rng, 0), rng.random() < 0.3]
+
+def tok_ref(t):
+    """the bits a token spells (documentation of the token types; struct / int formatting)"""
+    import struct, sys as _sys
+    k = t[0]
+    if k == 'hex': return ''.join(format(int(ch, 16), '04b') for ch in t[1])
+    if k == 'bin': return t[1]
+    if k == 'oct': return ''.join(format(int(ch, 8), '03b') for ch in t[1])
+    if k == 'int':
+        _, name, n, v, _ = t
+        b = format(v & ((1 << n) - 1), f'0{n}b')
+        little = name.endswith('le') or (name.endswith('ne') and _sys.byteorder == 'little')
+        return ''.join(reversed([b[i:i + 8] for i in range(0, n, 8)])) if little else b
+    if k == 'bool': return str(t[1])
+    if k == 'pad': return '0' * t[1]
+    if k == 'float':
+        _, name, n, x = t
+        little = name.endswith('le') or (name.endswith('ne') and _sys.byteorder == 'little')
+        by = struct.pack(('<' if little else '>') + {16: 'e', 32: 'f', 64: 'd'}[n], x)
+        return ''.join(format(y, '08b') for y in by)
+    if k == 'bits': return tok_ref(t[1])
+    raise AssertionError(t)
+
+def tok_text(t):
+    k = t[0]
+    if k in ('hex', 'bin', 'oct'):
+        per = {'hex': 4, 'bin': 1, 'oct': 3}[k]
+        if t[2] == 'prefix': return {'hex': '0x', 'bin': '0b', 'oct': '0o'}[k] + t[1]
+        if t[2] == 'name': return f'{k}={t[1]}'
+        return f'{k}:{per * len(t[1])}={t[1]}'
+    if k == 'int': return f'{t[1]}{":" if not t[4] else ""}{t[2]}={t[3]}'
+    if k == 'bool': return f'bool={t[1]}'
+    if k == 'pad': return f'pad:{t[1]}'
+    if k == 'float': return f'{t[1]}:{t[2]}={t[3]!r}'
+    if k == 'bits': return (f'bits:{len(tok_ref(t[1]))}=' if t[2] else 'bits=') + tok_text(t[1])
+    raise AssertionError(t)
+
+NEST_ROUTES = ['ctor', 'ctor', 'ctor', 'ctor_after', 'ctor_before', 'bits_kw', 'bits_kw', 'setter', 'setter', 'append_empty', 'prepend_empty', 'iadd_empty', 'add_empty', 'radd_empty', 'pack_fmt', 'pack_bits', 'pack_kw',
+               'join', 'fromstring', 'build', 'eq', 'insert', 'setslice']
+def gen_nest(rng, route=None, cls=None):
+    """a construction from a token string that no cache can hold yet (one token carries 40+ random bits), 'bits=' tokens nested 0-6 deep, through every route that takes a token string"""
+    k = rng.choice([1, 1, 1, 2, 3])
+    u = rng.randrange(k)
+    toks = []
+    for i in range(k):
+        d = rng.choice([0, 1, 1, 2, 3, 6]) if i == u else rng.choice([0, 0, 1, 2])
+        toks.append(rand_tok(rng, d, unique=(i == u)))
+    return {'op': 'nest', 'cls': cls or rng.choice(CLASSES), 'route': route or rng.choice(NEST_ROUTES), 'toks': toks, 'sep': rng.choice([', ', ',', ' , '])}
+
+def gen_nest_sweep(rng):
+    """every route once, over the four classes"""
+    return [gen_nest(rng, route=r, cls=CLASSES[(i + rng.randrange(4)) % 4]) for i, r in enumerate(sorted(set(NEST_ROUTES)))]
+
+def gen_refusal_history(rng, tier):
+    """bursts of refused calls of one kind (1, 3 or 30 of them; over-deep nestings; every route), each burst followed by constructions from never-seen strings through every route,
+    under option configurations that change in between"""
+    steps = []
+    kinds = [('str', h) for h in sorted(set(REFUSED_STR_HOWS))] + [('call', c) for c in REFUSED_CALLS] + [('deep', h) for h in sorted(set(REFUSED_STR_HOWS))]
+    rng.shuffle(kinds)
+    if tier == 'quick': kinds = kinds[:45]
+    for j, (fam, what) in enumerate(kinds):
+        if j % 6 == 0: steps.append({'op': 'set', 'opt': rng.choice(['lsb0', 'bytealigned', 'mxfp_overflow']), 'v': rng.random() < 0.5})
+        n = rng.choice([1, 3, 30]) if fam != 'deep' else rng.choice([1, 2])
+        for _ in range(n):
+            if fam == 'call': st = gen_refused(rng, deep=False); st = {'op': 'refused', 'call': what, 'cls': st['cls'], 'k': rng.randrange(10 ** 6)}
+            else:
+                st = gen_refused(rng, deep=(fam == 'deep'))
+                while 'call' in st: st = gen_refused(rng, deep=(fam == 'deep'))
+                st['how'] = what
+                if fam == 'str' and st['depth'] == 0 and rng.random() < 0.7: st['depth'] = rng.choice([1, 2, 4])
+            steps.append(st)
+        steps += gen_nest_sweep(rng) if j % 3 == 0 else [gen_nest(rng) for _ in range(4)]
+    steps += [{'op': 'set', 'opt': 'lsb0', 'v': False}, {'op': 'set', 'opt': 'bytealigned', 'v': False}, {'op': 'set', 'opt': 'mxfp_overflow', 'v': False}] + gen_nest_sweep(rng)
+    return {'op': 'history', 'steps': steps}
+
+# ---------------- external mutable sources: objects built from them never change when the source, or another object built from it, is mutated in place ----------------
+EXT_FAMILY = {'ba_big': 'ba', 'ba_le': 'ba', 'ba_slice': 'ba', 'ba_frombytes': 'ba', 'ba_copy_le': 'ba', 'tba_bits': 'ba', 'tba_bitarray': 'ba', 'tba_stream': 'ba', 'tba_slice': 'ba', 'tba_le': 'ba', 'frozen': 'imm_ba', 'frozen_le': 'imm_ba',
+              'ba_buf': 'ba_fixed', 'ba_buf_le': 'ba_fixed', 'bytearray': 'bytearray', 'bytes': 'imm_bytes', 'mv': 'mv', 'mv_ro': 'imm_bytes', 'mv_slice': 'mv', 'mv_step': 'mv', 'mv_cast': 'mv_arr', 'mv_arr': 'mv_arr',
+              'arr': 'arr', 'bytesio': 'bytesio', 'bytesio_written': 'bytesio', 'list_int': 'list', 'list_bool': 'list', 'list_mixed': 'list', 'tuple': 'imm_list'}
+EXT_SRC_MUTS = {'ba': ['invert', 'invert', 'setall1', 'setall0', 'flip', 'flip', 'append', 'extend', 'reverse', 'clear', 'delhead', 'bytereverse', 'setslice', 'ixor', 'ilshift', 'sort', 'pop', 'insert', 'fill', 'frombytes'],
+                'ba_fixed': ['invert', 'setall1', 'setall0', 'flip', 'base_xor', 'base_xor'], 'imm_ba': [], 'imm_bytes': [], 'imm_list': [],
+                'bytearray': ['xor', 'xor', 'zero', 'append', 'extend', 'clear', 'reverse', 'delhead', 'setslice', 'insert', 'pop', 'imul'], 'mv': ['mv_setitem', 'base_xor', 'mv_setslice'], 'mv_arr': ['base_setitem'],
+                'arr': ['setitem', 'setitem', 'append', 'reverse', 'byteswap', 'pop', 'extend', 'clear', 'imul'], 'bytesio': ['write0', 'truncate', 'write_end', 'seek', 'buffer_xor', 'read'],
+                'list': ['flip', 'flip', 'append', 'reverse', 'clear', 'delhead', 'extend', 'setslice']}
+EXT_ROUTES = {'ba': ['auto', 'auto', 'auto', 'kw_ba', 'kw_ba', 'kw_ba_win', 'bits_kw', 'add', 'radd', 'join', 'pack', 'append', 'prepend', 'iadd', 'setslice', 'setter_bits', 'insert', 'build'],
+              'bytes': ['auto', 'auto', 'auto', 'kw_bytes', 'kw_bytes', 'kw_bytes_win', 'bits_kw', 'add', 'radd', 'join', 'pack', 'packbytes', 'append', 'prepend', 'iadd', 'setslice', 'setter_bytes', 'setter_bits', 'insert', 'build', 'buildbytes', 'array'],
+              'arr': ['auto', 'auto', 'auto', 'kw_bytes', 'kw_bytes_win', 'bits_kw', 'add', 'radd', 'join', 'pack', 'packbytes', 'append', 'prepend', 'iadd', 'setslice', 'setter_bytes', 'setter_bits', 'insert', 'build', 'buildbytes', 'array_tc', 'array_tc'],
+              'bytesio': ['auto', 'auto', 'auto', 'auto_win', 'auto_win', 'bits_kw', 'add', 'radd', 'join', 'pack', 'append', 'prepend', 'iadd', 'setslice', 'setter_bits', 'insert', 'build'],
+              'list': ['auto', 'auto', 'auto', 'bits_kw', 'add', 'radd', 'join', 'pack', 'append', 'prepend', 'iadd', 'setslice', 'setter_bits', 'insert', 'build']}
+def ext_route_family(kind):
+    f = EXT_FAMILY[kind]
+    return {'ba': 'ba', 'ba_fixed': 'ba', 'imm_ba': 'ba', 'bytearray': 'bytes', 'imm_bytes': 'bytes', 'mv': 'bytes', 'mv_arr': 'arr' if kind == 'mv_arr' else 'bytes', 'arr': 'arr', 'bytesio': 'bytesio', 'list': 'list', 'imm_list': 'list'}[f]
+EXT_OBJ_MUTS = ['invert', 'invert', 'setall1', 'setall0', 'reverse', 'append', 'prepend', 'iadd', 'clear', 'delhead', 'setbit', 'setbit']
+ARR_CODES = {'B': [0, 1, 0xf0, 0xa5, 255], 'b': [0, 1, -1, -128, 127], 'H': [0, 1, 0xf0a5, 65535], 'h': [0, -1, 12345, -32768], 'I': [0, 1, 0xdeadbeef], 'i': [0, -1, 123456789], 'L': [0, 1, 0xdeadbeef], 'Q': [0, 1, 2 ** 64 - 1, 0x0123456789abcdef],
+             'q': [0, -1, 2 ** 62], 'f': [0.0, 1.5, -2.0], 'd': [0.0, 1.5, -2.0, 1e300]}
+
+def gen_from_ext(rng, kind=None, first=None):
+    kind = kind or rng.choice(sorted(EXT_FAMILY))
+    fam = EXT_FAMILY[kind]
+    st = {'op': 'from_ext', 'kind': kind}
+    if fam in ('ba', 'imm_ba') and kind != 'ba_frombytes':
+        n = rng.choice([0, 1, 7, 8, 9, 15, 16, 17, 31, 32, 33, 63, 64, 65, 128, 129]) if rng.random() < 0.85 else rng.randrange(0, 200)
+        st['bits'] = rand_bits(rng, n)
+    elif fam in ('list', 'imm_list'):
+        n = rng.choice([0, 1, 3, 8, 9, 17])
+        st['vals'] = [rng.choice([0, 1, '', 'x', None, 2.5, [], [0]]) for _ in range(n)] if kind == 'list_mixed' else [rng.choice([True, False]) if kind == 'list_bool' else rng.choice([0, 1]) for _ in range(n)]
+    elif kind in ('arr', 'mv_arr', 'mv_cast'):
+        tc = rng.choice(sorted(ARR_CODES)) if kind != 'mv_cast' else rng.choice(['H', 'I', 'h', 'Q', 'd'])
+        st['tc'] = tc; st['vals'] = [rng.choice(ARR_CODES[tc]) for _ in range(rng.choice([0, 1, 2, 3, 5]))]
+    else:
+        nb = rng.choice([0, 1, 2, 3, 4, 8, 9, 16, 17])
+        st['data'] = bytes(rng.getrandbits(8) if rng.random() < 0.8 else rng.choice([0, 255]) for _ in range(nb)).hex()
+        if fam == 'bytesio': st['iopos'] = rng.choice([0, 0, 1, nb])
+    rfam = ext_route_family(kind)
+    muts = EXT_SRC_MUTS[fam]
+    ev = []
+    nobj = 0
+    def make(route=None):
+        nonlocal nobj
+        nobj += 1
+        route = route or rng.choice(EXT_ROUTES[rfam])
+        if route == 'array_tc' and st.get('tc') == 'L': route = 'auto'         # (an Array of 64-bit items takes typecode 'Q' only)
+        return ['make', rng.choice(CLASSES), route, rng.randrange(0, 40), rng.randrange(0, 40)]
+    ev.append(make(first)); ev.append(make())
+    if EXT_INPLACE.get(fam) and rng.random() < 0.5: ev.append(['mut_src', rng.choice(EXT_INPLACE[fam]), rng.randrange(0, 64)])
+    for _ in range(rng.randrange(3, 10)):
+        r = rng.random()
+        if r < 0.25 and nobj < 6: ev.append(make())
+        elif r < 0.55 and muts: ev.append(['mut_src', rng.choice(muts), rng.randrange(0, 64)])
+        elif r < 0.62 and nobj < 6:
+            ev.append(['resrc', rng.randrange(nobj), rng.choice(['tobitarray', 'tobitarray', 'bytearray', 'tobytes_mv'])])
+            rfam, muts = ('ba', EXT_SRC_MUTS['ba']) if ev[-1][2] == 'tobitarray' else ('bytes', EXT_SRC_MUTS['bytearray'] if ev[-1][2] == 'bytearray' else [])
+        else: ev.append(['mut_obj', rng.randrange(nobj), rng.choice(EXT_OBJ_MUTS), rng.randrange(0, 64), rand_bits(rng, rng.choice([1, 3, 8]))])
+    if muts: ev.append(['mut_src', rng.choice(muts), rng.randrange(0, 64)])
+    ev.append(make())
+    st['events'] = ev
+    return st
+
+EXT_INPLACE = {'ba': ['invert', 'flip', 'setall1', 'setall0', 'reverse'], 'ba_fixed': ['invert', 'flip', 'base_xor'], 'bytearray': ['xor', 'zero', 'reverse'], 'mv': ['mv_setitem', 'base_xor', 'mv_setslice'], 'mv_arr': ['base_setitem'],
+               'arr': ['setitem', 'reverse', 'byteswap'], 'bytesio': ['buffer_xor', 'write0'], 'list': ['flip', 'reverse']}       # changes that keep the length (an object that shares the memory could forbid the others)
+def gen_from_ext_allroutes(rng, kind):
+    """one object by EVERY route that takes this kind of source, then the source is changed in place (twice), some of the objects are changed, the source once more, one more object"""
+    st = gen_from_ext(rng, kind=kind)
+    while not (st.get('bits') or st.get('vals') or st.get('data')): st = gen_from_ext(rng, kind=kind)         # (something to change)
+    fam = EXT_FAMILY[kind]
+    routes = sorted(set(EXT_ROUTES[ext_route_family(kind)]))
+    if st.get('tc') == 'L': routes = [r for r in routes if r != 'array_tc']
+    rng.shuffle(routes)
+    ev = [['make', rng.choice(CLASSES), r, rng.randrange(0, 40), rng.randrange(0, 40)] for r in routes]
+    inplace, muts = EXT_INPLACE.get(fam, []), EXT_SRC_MUTS[fam]
+    if inplace: ev += [['mut_src', rng.choice(inplace), rng.randrange(0, 64)], ['mut_src', rng.choice(inplace), rng.randrange(0, 64)]]
+    for _ in range(4): ev.append(['mut_obj', rng.randrange(len(routes)), rng.choice(['invert', 'setall1', 'setall0', 'setbit', 'append']), rng.randrange(0, 64), rand_bits(rng, 3)])
+    if muts: ev.append(['mut_src', rng.choice(muts), rng.randrange(0, 64)])
+    ev.append(['make', rng.choice(CLASSES), 'auto', 0, 0])
+    st['events'] = ev
+    return st
+
+def gen_from_ext_sweep(rng, every=True):
+    """each kind of source: one object by every route and the source then changed in place; and a random program whose first object is made by the plain positional route"""
+    kinds = sorted(EXT_FAMILY)
+    if not every: return [gen_from_ext(rng, kind=k, first=rng.choice(['auto', 'auto', None])) for k in rng.sample(kinds, 8)]
+    out = []
+    for k in kinds: out += [gen_from_ext_allroutes(rng, k), gen_from_ext(rng, kind=k, first='auto')]
+    return out
+
 def gen_purity_history(rng, tier):
     """option configurations in turn (never touched by the program in between): unrelated calls, constructions from earlier objects, and after each of them constructions that follow the options"""
     steps = []
@@ -185,6 +410,10 @@ def gen_purity_history(rng, tier):
         steps += [{'op': 'set', 'opt': 'lsb0', 'v': l}, {'op': 'set', 'opt': 'bytealigned', 'v': b}, {'op': 'set', 'opt': 'mxfp_overflow', 'v': m}, {'op': 'set', 'opt': 'no_color', 'v': nc}]
         for pc in gen_purecall_sweep(rng): steps += [pc, gen_optprobe(rng)]
         if (l, b, m, nc) == configs[0] or tier != 'quick': steps += gen_from_obj_sweep(rng)
+        # under this configuration: sources owned by the caller (every kind) used for several objects and then changed in place; refused calls, then never-seen token strings by every route
+        steps += gen_from_ext_sweep(rng, every=((l, b, m, nc) == configs[0] or tier != 'quick'))
+        for _ in range(6 if tier == 'quick' else 25): steps += [gen_refused(rng), gen_optprobe(rng)]
+        steps += gen_nest_sweep(rng)
         for _ in range(per):
             r = rng.random()
             if r < 0.5: steps += [gen_purecall(rng), gen_optprobe(rng)]
@@ -201,6 +430,7 @@ def gen_cases(rng, tier):
         steps = []
         K = 330 if tier == 'quick' else 700
         pool_s, pool_f, pool_d = [], [], []
+        refused_seen = []
         for i in range(K):
             n = rng.randrange(1, 60); v = rng.randrange(0, 1 << min(n, 20))
             pool_s.append(rng.choice(TOKENS).format(n=max(n, 21), v=v, h=format(v, 'x'), b=format(v, 'b'), f=rng.choice([0.5, 1000.0, 448.0, 1e6, -3.0, 60000.0])))
@@ -251,6 +481,12 @@ def gen_cases(rng, tier):
                 for v in pair:
                     steps.append({'op': 'floatval', 'name': nm, 'n': w or 16, 'v': v, 'route': rng.choice(['kw', 'token', 'pack', 'build', 'array', 'setattr'])})
             if i % 53 == 11: steps += [gen_from_obj(rng), gen_optprobe(rng)]
+            # calls that are refused (every kind, every route; now and then an over-deep nesting), constructions from token strings no cache has seen yet, external mutable sources
+            if i % 5 == 2:
+                steps.append(dict(rng.choice(refused_seen)) if refused_seen and rng.random() < 0.3 else gen_refused(rng, pool_s))      # (the same refused call again: it has to be refused again)
+                refused_seen.append(steps[-1])
+            if i % 5 == 4: steps.append(gen_nest(rng))
+            if i % 23 == 9: steps.append(gen_from_ext(rng))
             if i % 97 == 13: steps += [gen_from_array(rng)]
         if h == 0:
             # first use of every lazily initialised table under the NON-default option values, then the default ones again
@@ -265,6 +501,8 @@ def gen_cases(rng, tier):
         yield {'op': 'history', 'steps': steps}
     for _ in range(1 if tier == 'quick' else 4):
         yield gen_purity_history(rng, tier)
+    for _ in range(1 if tier == 'quick' else 4):
+        yield gen_refusal_history(rng, tier)
 
 def kind(c): return 'history'
 
@@ -277,6 +515,9 @@ def do_call(st):
     if op == 'from_array': return do_from_array(st)
     if op == 'purecall': return do_purecall(st)
     if op == 'optprobe': return do_optprobe(st)
+    if op == 'refused': return do_refused(st)
+    if op == 'nest': return do_nest(st)
+    if op == 'from_ext': return do_from_ext(st)
     if op == 'str':
         o = cls_of(st['cls'])(st['s'])
         r = [type(o).__name__, o.bin]
@@ -783,6 +1024,423 @@ def model_optprobe(st, o):
     if w == 'unpack_order': return ('ok', [b[-2:], b[:-2]] if lsb0 else [b[:2], b[2:]])
     raise AssertionError(w)
 
+# ---- runner and reference of the refused calls, the never-seen token strings and the external sources ----
+BADMODES = ['clip', 'Saturate', 'OVERFLOW', 'saturated', '', ' overflow', None, 0, 1, True, False, 1.5, ['overflow'], b'overflow']
+class NoTruth:
+    def __bool__(self): raise ValueError('neither true nor false')
+
+def do_refused(st):
+    import bitstring, bitarray
+    from bitstring import Bits, BitArray, ConstBitStream, BitStream, Dtype, Array, pack
+    C = cls_of(st['cls'])
+    M = C if hasattr(C, 'append') else (BitStream if hasattr(C, 'pos') else BitArray)
+    if 'call' not in st:
+        s = refused_string(st); how = st['how']
+        if how == 'ctor': return C(s).bin
+        if how == 'ctor_after': return C('0b1, ' + s).bin
+        if how == 'ctor_before': return C(s + ', 0b1').bin
+        if how == 'bits_kw': return C(bits=s).bin
+        if how == 'setter':
+            a = M(); a.bits = s; return a.bin
+        if how == 'append':
+            a = M('0b1'); a.append(s); return a.bin
+        if how == 'prepend':
+            a = M('0b1'); a.prepend(s); return a.bin
+        if how == 'iadd':
+            a = M('0b1'); a += s; return a.bin
+        if how == 'add': return (C('0b1') + s).bin
+        if how == 'radd': return (s + C('0b1')).bin
+        if how == 'pack_fmt': return pack(s).bin
+        if how == 'pack_bits': return pack('bits', s).bin
+        if how == 'pack_kw': return pack('bits=x', x=s).bin
+        if how == 'join': return C().join(['0b1', s]).bin
+        if how == 'fromstring': return C.fromstring(s).bin
+        if how == 'build': return Dtype('bits').build(s).bin
+        if how == 'find': return list(C('0b1').find(s))
+        if how == 'contains': return s in C('0b1')
+        if how == 'insert':
+            a = M('0b1'); a.insert(s, 0); return a.bin
+        if how == 'setslice':
+            a = M('0b1'); a[0:1] = s; return a.bin
+        if how == 'eq': return C('0b1') == s
+        if how == 'ne': return C('0b1') != s
+        if how == 'startswith': return C('0b1').startswith(s)
+        if how == 'replace':
+            a = M('0b1'); return [a.replace(s, '0b1'), a.bin]
+        if how == 'overwrite':
+            a = M('0b1'); a.overwrite(s, 0); return a.bin
+        if how == 'and': return (C('0b1') & s).bin
+        if how == 'parse': return Dtype('uint8').parse(s)
+        if how == 'readto': return ConstBitStream('0b1').readto(s).bin
+        raise AssertionError(how)
+    k = st['k']; c = st['call']
+    R = {
+        'kw_hex_bad': lambda: C(hex='zz%x' % k), 'kw_bin_bad': lambda: C(bin='012'), 'kw_oct_bad': lambda: C(oct='8%d' % k), 'kw_uint_big': lambda: C(uint=256 + k, length=8), 'kw_int_small': lambda: C(int=-200 - k, length=8),
+        'kw_uint_nolen': lambda: C(uint=k), 'kw_float_len': lambda: C(float=1.0, length=17), 'kw_bytes_len': lambda: C(bytes=b'ab', length=100 + k), 'kw_bytes_off': lambda: C(bytes=b'ab', offset=17 + k),
+        'neg_len': lambda: C('0x1', length=-1 - k), 'neg_int': lambda: C(-1 - k), 'unknown_kw': lambda: C(**{'nosuch%d' % k: 3}), 'kw_bool': lambda: C(bool=2 + k), 'kw_ue_neg': lambda: C(ue=-1 - k),
+        'bits_len': lambda: C(bits='0x1', length=5), 'nofile': lambda: C(filename='/nonexistent/verif_%d' % k), 'ba_off': lambda: C(bitarray=bitarray.bitarray('1'), offset=5 + k), 'auto_kw': lambda: C(auto='0x1'),
+        'float_obj': lambda: C(3.5 + k), 'obj': lambda: C(object()), 'kw_len_mismatch': lambda: C(hex='ab', length=7), 'kw_e4m3_str': lambda: C(e4m3mxfp='x%d' % k), 'kw_float_str': lambda: C(float='abc', length=32),
+        'kw_uint_neg': lambda: C(uint=-1 - k, length=8), 'kw_len_only_neg': lambda: C(length=-5 - k), 'kw_bytes_str': lambda: C(bytes='ab'), 'kw_se_str': lambda: C(se='x'), 'kw_bfloat_len': lambda: C(bfloat=1.0, length=8),
+        'kw_offset_hex': lambda: C(hex='ab', offset=1),
+        'setter_uint': lambda: setattr(M(8), 'uint', 300 + k), 'setter_hex': lambda: setattr(M(8), 'hex', 'zz'), 'setter_int': lambda: setattr(M(8), 'int', -200 - k), 'setter_bin': lambda: setattr(M(8), 'bin', '2'),
+        'pack_big': lambda: pack('uint:8', 300 + k), 'pack_few': lambda: pack('uint:8, hex', 1), 'pack_many': lambda: pack('uint:8', 1, 2), 'pack_nokw': lambda: pack('uint:n', 3), 'pack_unknown': lambda: pack('nosuch%d' % k, 1),
+        'pack_unbalanced': lambda: pack('2*(uint:8', 1), 'pack_floatlen': lambda: pack('float:17', 1.0), 'pack_badval': lambda: pack('hex', 'zz'), 'pack_few2': lambda: pack('ue, se', 1), 'pack_few3': lambda: pack('e4m3mxfp, uint:4', 1.0),
+        'pack_list_few': lambda: pack(['uint:8', 'hex:8'], 7), 'pack_kwbad': lambda: pack('uint:w', 9, w=-8),
+        'dtype_unknown': lambda: Dtype('nosuch%d' % k), 'dtype_neg': lambda: Dtype('uint', -1 - k), 'dtype_floatlen': lambda: Dtype('float', 17), 'dtype_bool2': lambda: Dtype('bool', 2), 'dtype_twice': lambda: Dtype('uint8', 8),
+        'dtype_scale0': lambda: Dtype('uint8', scale=0), 'dtype_empty': lambda: Dtype(''), 'dtype_lenstr': lambda: Dtype('uint', 'x'), 'dtype_build_big': lambda: Dtype('uint8').build(300 + k), 'dtype_e3m2_len': lambda: Dtype('e3m2mxfp', 8),
+        'array_unknown': lambda: Array('nosuch%d' % k), 'array_big': lambda: Array('uint8', [1, 300 + k]), 'array_str': lambda: Array('uint8', ['x']), 'array_nolen': lambda: Array('uint'), 'array_ue': lambda: Array('ue'),
+        'array_append_big': lambda: Array('uint8', [1]).append(300 + k), 'array_float_bad': lambda: Array('float16', ['abc']), 'array_setitem': lambda: Array('int8', [1]).__setitem__(0, 1000 + k),
+        'read_past': lambda: ConstBitStream('0x1').read(8), 'read_unknown': lambda: ConstBitStream('0x1').read('nosuch%d' % k), 'readlist_unknown': lambda: ConstBitStream('0x1').readlist('uint:4, nosuch'),
+        'unpack_long': lambda: Bits('0x12').unpack('uint:99'), 'read_neg': lambda: ConstBitStream('0x1').read('uint:-1'), 'pos_big': lambda: setattr(ConstBitStream('0x1'), 'pos', 100 + k), 'index': lambda: C('0x1')[10 + k],
+        'unpack_unknown': lambda: Bits('0x12').unpack('nosuch%d' % k), 'readlist_kw': lambda: ConstBitStream('0x1234').readlist('hex:n, uint:m', n=4), 'unpack_kw': lambda: Bits('0x1234').unpack('uint:n, bin', m=4), 'pack_none': lambda: pack('float:32'),
+        'opt_mxfp_bad': lambda: setattr(bitstring.options, 'mxfp_overflow', BADMODES[k % len(BADMODES)]), 'opt_del': lambda: delattr(bitstring.options, ['lsb0', 'bytealigned', 'mxfp_overflow'][k % 3]),
+        'opt_lsb0_badbool': lambda: setattr(bitstring.options, 'lsb0', NoTruth()), 'opt_bytealigned_badbool': lambda: setattr(bitstring.options, 'bytealigned', NoTruth()),
+        'fmt_unbalanced': lambda: bitstring.utils.preprocess_tokens('2*(uint:8'), 'fmt_colon': lambda: bitstring.utils.tokenparser('uint::8'), 'fmt_mult': lambda: bitstring.utils.tokenparser('x*uint:8'),
+    }
+    r = R[c]()
+    return repr(r)[:80]
+
+def nest_string(st): return st['sep'].join(tok_text(t) for t in st['toks'])
+
+def do_nest(st):
+    import bitstring
+    from bitstring import Bits, BitArray, BitStream, Dtype, pack
+    C = cls_of(st['cls'])
+    M = C if hasattr(C, 'append') else (BitStream if hasattr(C, 'pos') else BitArray)
+    s = nest_string(st); r = st['route']
+    if r == 'ctor': return C(s).bin
+    if r == 'ctor_after': return C('0b1, ' + s).bin
+    if r == 'ctor_before': return C(s + ', 0b1').bin
+    if r == 'bits_kw': return C(bits=s).bin
+    if r == 'setter':
+        a = M('0b101'); a.bits = s; return a.bin
+    if r in ('append_empty', 'prepend_empty', 'iadd_empty', 'insert', 'setslice'):
+        a = M()
+        if r == 'append_empty': a.append(s)
+        elif r == 'prepend_empty': a.prepend(s)
+        elif r == 'iadd_empty': a += s
+        elif r == 'insert': a.insert(s, 0)
+        else: a[:] = s
+        return a.bin
+    if r == 'add_empty': return (C() + s).bin
+    if r == 'radd_empty': return (s + C()).bin
+    if r == 'pack_fmt': return pack(s).bin
+    if r == 'pack_bits': return pack('bits', s).bin
+    if r == 'pack_kw': return pack('bits=x', x=s).bin
+    if r == 'join': return C().join([s]).bin
+    if r == 'fromstring': return C.fromstring(s).bin
+    if r == 'build': return Dtype('bits').build(s).bin
+    if r == 'eq':
+        val = ''.join(tok_ref(t) for t in st['toks'])
+        return [C(bin=val) == s, C(bin=val + '1') == s, C(bin=val) != s]
+    raise AssertionError(r)
+
+def model_nest(st, w, o):
+    """-> None or what differs.  The bits are those the tokens spell, in order (pack() with a format of several tokens fills from the right under lsb0)"""
+    vals = [tok_ref(t) for t in st['toks']]
+    r = st['route']
+    val = ''.join(reversed(vals) if (r == 'pack_fmt' and o['lsb0']) else vals)
+    exp = {'ctor_after': '1' + val, 'ctor_before': val + '1', 'eq': [True, False, False]}.get(r, val)
+    if tuple(w) == ('ok', exp): return None
+    return (f"{st['cls']} from the never-seen token string {nest_string(st)[:200]!r} via '{r}' gave {str(w)[:200]}; its tokens spell {str(exp)[:200]} "
+            f"(the same call in a fresh interpreter succeeds: the outcome depends on the calls made before)")
+
+def ext_spell(src):
+    """the bits an external source holds right now (bitarray: to01; buffers: their bytes; BytesIO: getvalue; sequences: truthiness)"""
+    import bitarray, io, array
+    if isinstance(src, bitarray.bitarray): return src.to01()
+    if isinstance(src, io.BytesIO): by = src.getvalue()
+    elif isinstance(src, array.array): by = src.tobytes()
+    elif isinstance(src, (bytes, bytearray, memoryview)): by = bytes(src)
+    else: return ''.join('1' if x else '0' for x in src)
+    return ''.join(format(y, '08b') for y in by)
+
+def ext_window(route, n, a, b):
+    """(offset, length) of the window routes, from the two random numbers of the event and the current length of the source"""
+    if not route.endswith('_win'): return None
+    off = a % (n + 1); return off, b % (n - off + 1)
+
+def ext_source(st):
+    import bitarray, io, array, bitstring
+    from bitstring import Bits, BitArray, BitStream
+    kind = st['kind']; base = None; origin = None
+    B = st.get('bits'); data = bytes.fromhex(st['data']) if 'data' in st else None
+    if kind == 'ba_big': src = bitarray.bitarray(B, endian='big')
+    elif kind == 'ba_le': src = bitarray.bitarray(B, endian='little')
+    elif kind == 'ba_slice': src = bitarray.bitarray('10' + B + '1')[2:-1]
+    elif kind == 'ba_frombytes':
+        src = bitarray.bitarray(); src.frombytes(data)
+    elif kind == 'ba_copy_le': src = bitarray.bitarray(bitarray.bitarray(B, endian='little'))
+    elif kind == 'frozen': src = bitarray.frozenbitarray(B)
+    elif kind == 'frozen_le': src = bitarray.frozenbitarray(B, endian='little')
+    elif kind in ('ba_buf', 'ba_buf_le'):
+        base = bytearray(data); src = bitarray.bitarray(buffer=base, endian='little' if kind == 'ba_buf_le' else 'big')
+    elif kind.startswith('tba_'):
+        origin = {'tba_bits': lambda: Bits(bin=B), 'tba_bitarray': lambda: BitArray(bin=B), 'tba_stream': lambda: BitStream(bin=B), 'tba_slice': lambda: Bits(bin='1' + B + '01')[(2 if bitstring.options.lsb0 else 1):(2 if bitstring.options.lsb0 else 1) + len(B)],
+                  'tba_le': lambda: Bits(bitarray.bitarray(B, endian='little'))}[kind]()
+        src = origin.tobitarray()
+    elif kind == 'bytearray': src = bytearray(data)
+    elif kind == 'bytes': src = data
+    elif kind == 'mv':
+        base = bytearray(data); src = memoryview(base)
+    elif kind == 'mv_ro': src = memoryview(data)
+    elif kind == 'mv_slice':
+        base = bytearray(b'\x00' + data + b'\xff'); src = memoryview(base)[1:1 + len(data)]
+    elif kind == 'mv_step':
+        base = bytearray(b''.join(bytes([y, 0x5a]) for y in data)); src = memoryview(base)[::2]
+    elif kind in ('arr', 'mv_arr', 'mv_cast'):
+        a = array.array(st['tc'], st['vals'])
+        if kind == 'arr': src = a
+        else:
+            base = a; src = memoryview(a) if kind == 'mv_arr' else memoryview(a).cast('B')
+    elif kind == 'bytesio':
+        src = io.BytesIO(data); src.seek(st.get('iopos', 0))
+    elif kind == 'bytesio_written':
+        src = io.BytesIO(); src.write(data)
+    elif kind == 'tuple': src = tuple(st['vals'])
+    else: src = list(st['vals'])
+    return src, base, origin
+
+def ext_mutate(src, base, how, k):
+    """one in-place change of the source (or of the object whose memory it exposes)"""
+    import bitarray, array
+    n = len(src) if not hasattr(src, 'getvalue') else len(src.getvalue())
+    i = k % n if n else 0
+    if isinstance(src, bitarray.bitarray):
+        if how == 'invert': src.invert()
+        elif how == 'setall1': src.setall(1)
+        elif how == 'setall0': src.setall(0)
+        elif how == 'flip':
+            if n: src[i] = not src[i]
+        elif how == 'append': src.append(k & 1)
+        elif how == 'extend': src.extend('101')
+        elif how == 'reverse': src.reverse()
+        elif how == 'clear': src.clear()
+        elif how == 'delhead': del src[:k % 5]
+        elif how == 'bytereverse':
+            if n % 8 == 0: src.bytereverse()          # (with a partial last byte its padding bits, which are not defined, would come into view)
+        elif how == 'setslice':
+            m = min(n, 8); src[:m] = bitarray.bitarray('10110010'[:m], endian=src.endian)
+        elif how == 'ixor': src ^= bitarray.bitarray('1' * n, endian=src.endian)
+        elif how == 'ilshift': src <<= 1
+        elif how == 'sort': src.sort()
+        elif how == 'pop':
+            if n: src.pop()
+        elif how == 'insert': src.insert(0, 1)
+        elif how == 'fill': src.fill()
+        elif how == 'frombytes': src.frombytes(b'\xa5')
+        elif how == 'base_xor':
+            if len(base): base[k % len(base)] ^= 0xff
+        else: raise AssertionError(how)
+    elif isinstance(src, bytearray):
+        if how == 'xor':
+            if n: src[i] ^= 0xff
+        elif how == 'zero': src[:] = bytes(n)
+        elif how == 'append': src.append(0xa5)
+        elif how == 'extend': src.extend(b'\x0f\xf0')
+        elif how == 'clear': src.clear()
+        elif how == 'reverse': src.reverse()
+        elif how == 'delhead': del src[:1]
+        elif how == 'setslice': src[:2] = b'\xff'
+        elif how == 'insert': src.insert(0, 0x3c)
+        elif how == 'pop':
+            if n: src.pop()
+        elif how == 'imul':
+            if n <= 16: src *= 2
+        else: raise AssertionError(how)
+    elif isinstance(src, memoryview):
+        if how == 'mv_setitem':
+            if n: src[i] = src[i] ^ 0xff
+        elif how == 'mv_setslice':
+            m = min(n, 2); src[:m] = bytes([0x99] * m)
+        elif how == 'base_xor':
+            if len(base): base[k % len(base)] ^= 0xff
+        elif how == 'base_setitem':
+            if len(base): base[k % len(base)] = 2.5 if base.typecode in 'fd' else 1 if base[k % len(base)] != 1 else 0
+        else: raise AssertionError(how)
+    elif isinstance(src, array.array):
+        v = 2.5 if src.typecode in 'fd' else 1
+        if how == 'setitem':
+            if n: src[i] = v if src[i] != v else 0
+        elif how == 'append': src.append(v)
+        elif how == 'reverse': src.reverse()
+        elif how == 'byteswap': src.byteswap()
+        elif how == 'pop':
+            if n: src.pop()
+        elif how == 'extend': src.extend([v, v])
+        elif how == 'clear': del src[:]
+        elif how == 'imul':
+            if n <= 8: src *= 2
+        else: raise AssertionError(how)
+    elif hasattr(src, 'getvalue'):
+        if how == 'write0': src.seek(0); src.write(b'\xff')
+        elif how == 'truncate': src.truncate(k % (n + 1))
+        elif how == 'write_end': src.seek(0, 2); src.write(b'\x0f')
+        elif how == 'seek': src.seek(k % (n + 1))
+        elif how == 'buffer_xor':
+            if n:
+                with src.getbuffer() as m: m[i] ^= 0xff
+        elif how == 'read': src.read(1)
+        else: raise AssertionError(how)
+    else:
+        if how == 'flip':
+            if n: src[i] = 0 if src[i] else 1
+        elif how == 'append': src.append(1)
+        elif how == 'reverse': src.reverse()
+        elif how == 'clear': src.clear()
+        elif how == 'delhead': del src[:k % 3]
+        elif how == 'extend': src.extend([1, 0, 'x'])
+        elif how == 'setslice': src[:2] = [1]
+        else: raise AssertionError(how)
+
+def ext_newcls(cls, route):
+    """class of the object a route makes"""
+    if route in ('pack', 'packbytes'): return 'BitStream'
+    if route in ('build', 'buildbytes'): return 'Bits'
+    if route in ('array', 'array_tc'): return 'BitArray'
+    if route in ('append', 'prepend', 'iadd', 'setslice', 'setter_bytes', 'setter_bits', 'insert') and cls not in MUTABLE: return {'Bits': 'BitArray', 'ConstBitStream': 'BitStream'}[cls]
+    return cls
+
+def do_from_ext(st):
+    import bitstring, array
+    from bitstring import Bits, BitArray, Dtype, Array, pack
+    src, base, origin = ext_source(st)
+    objs, keep = [], []        # keep: (hash, bits) of an immutable object when it was made
+    def add(o):
+        objs.append(o)
+        keep.append(None if isinstance(o, BitArray) else (hash(o), o.bin))
+    if origin is not None: add(origin)
+    snaps = []
+    def snap(tag, extra=None):
+        row = []
+        for o, kp in zip(objs, keep):
+            row.append([type(o).__name__, o.bin, None if kp is None else hash(o) == kp[0], None if kp is None else bool(o == Bits(bin=kp[1]))])
+        snaps.append([tag, ext_spell(src), row, extra])
+    snap('start')
+    for ev in st['events']:
+        if ev[0] == 'make':
+            _, cls, route, a, b = ev
+            C = cls_of(cls); M = cls_of(ext_newcls(cls, route))
+            n = len(ext_spell(src)); win = ext_window(route, n, a, b)
+            def make():
+                if route == 'auto': return C(src)
+                if route == 'auto_win': return C(src, offset=win[0], length=win[1])
+                if route == 'kw_ba': return C(bitarray=src)
+                if route == 'kw_ba_win': return C(bitarray=src, offset=win[0], length=win[1])
+                if route == 'kw_bytes': return C(bytes=src)
+                if route == 'kw_bytes_win': return C(bytes=src, offset=win[0], length=win[1])
+                if route == 'bits_kw': return C(bits=src)
+                if route == 'add': return C() + src
+                if route == 'radd': return src + C()
+                if route == 'join': return C().join([src])
+                if route == 'pack': return pack('bits', src)
+                if route == 'packbytes': return pack('bytes', src)
+                if route == 'build': return Dtype('bits').build(src)
+                if route == 'buildbytes': return Dtype('bytes').build(src)
+                if route == 'array': return Array('uint8', src).data
+                if route == 'array_tc':
+                    tc = st['tc']; w = 8 * array.array(tc).itemsize
+                    return Array(('float' if tc in 'fd' else 'uint' if tc.isupper() else 'int') + ('ne' if w > 8 else '') + str(w), src).data
+                o = M()
+                if route == 'append': o.append(src)
+                elif route == 'prepend': o.prepend(src)
+                elif route == 'iadd': o += src
+                elif route == 'setslice': o[:] = src
+                elif route == 'setter_bytes': o.bytes = src
+                elif route == 'setter_bits': o.bits = src
+                elif route == 'insert': o.insert(src, 0)
+                else: raise AssertionError(route)
+                return o
+            r = attempt(make)
+            if r[0] == 'ok': add(r[1]); snap('made', list(win) if win else None)
+            else: snap('refused', r[1])
+        elif ev[0] == 'mut_src':
+            try: ext_mutate(src, base, ev[1], ev[2]); snap('mut_src')
+            except Exception as e: snap('mut_src', f'{type(e).__name__}: {e}'[:80])          # (a change the source itself refuses: nothing happened)
+        elif ev[0] == 'resrc':
+            if ev[1] < len(objs):
+                o = objs[ev[1]]
+                src = o.tobitarray() if ev[2] == 'tobitarray' else bytearray(o.tobytes()) if ev[2] == 'bytearray' else memoryview(o.tobytes())
+                base = None
+            snap('resrc')
+        else:
+            _, i, how, k, bits = ev
+            o = objs[i] if i < len(objs) else None
+            if o is None or not isinstance(o, BitArray): snap('skip'); continue
+            n = len(o)
+            if how == 'invert': o.invert() if n else None
+            elif how == 'setall1': o.set(1) if n else None
+            elif how == 'setall0': o.set(0) if n else None
+            elif how == 'reverse': o.reverse()
+            elif how == 'append': o.append(Bits(bin=bits))
+            elif how == 'prepend': o.prepend(Bits(bin=bits))
+            elif how == 'iadd': o += Bits(bin=bits)
+            elif how == 'clear': o.clear()
+            elif how == 'delhead': del o[:k % 5]
+            elif how == 'setbit':
+                if n: o.set(bits[0] == '1', k % n)
+            snap('mut_obj')
+    return snaps
+
+def model_from_ext(st, snaps, o):
+    """every object holds what its source spelled when it was made (the window routes: that window), changed only by what was done to the object itself; -> None or what differs"""
+    lsb0 = o['lsb0']
+    if not snaps or snaps[0][0] != 'start': return f"no start snapshot: {str(snaps)[:100]}"
+    head = f"source '{st['kind']}'" + (f" {st.get('tc')}{st.get('vals')}" if 'vals' in st else f" holding {st.get('bits', st.get('data'))!r}")
+    model = []          # [class, bits]
+    if st['kind'].startswith('tba_'):
+        if len(snaps[0][2]) != 1: return f"{head}: no origin object"
+        model.append([snaps[0][2][0][0], st['bits'], 'origin of tobitarray()'])
+        if snaps[0][1] != st['bits']: return f"{head}: tobitarray() of the object holding {st['bits']!r} gives {snaps[0][1]!r}"
+    hist = ['start']
+    def compare(i):
+        t = snaps[i]
+        if len(t[2]) != len(model): return f"{head}, after {hist}: {len(t[2])} objects, expected {len(model)}"
+        for j, ((cn, bits, via), row) in enumerate(zip(model, t[2])):
+            what = f"{head}: after the event {hist[-1]} object #{j} (a {row[0]} made from the source via '{via}')"
+            tail = f" | events so far: {hist}"
+            if row[1] != bits: return f"{what} holds {row[1]!r}; the bits the source spelled at the time of that call, with what was done to this object itself since, are {bits!r}" + tail
+            if row[2] is False: return f"{what} has another hash than when it was made" + tail
+            if row[3] is False: return f"{what} no longer equals a bitstring of the bits it was made with" + tail
+        return None
+    m = compare(0)
+    if m: return m
+    for i, ev in enumerate(st['events'], start=1):
+        if i >= len(snaps): return f"{head}: missing snapshot {i}"
+        t = snaps[i]; prev = snaps[i - 1][1]
+        hist.append(ev[:3] if ev[0] != 'mut_obj' else ev[:3])
+        if ev[0] == 'make':
+            _, cls, route, a, b = ev
+            if t[0] != 'made': return f"{head}, events {hist}: {cls} from the source (spelling {prev!r}) via '{route}' raised {t[3]}"
+            win = ext_window(route, len(prev), a, b)
+            bits = prev[win[0]:win[0] + win[1]] if win else prev
+            model.append([ext_newcls(cls, route), bits, route])
+            if t[2] and t[2][-1][0] != ext_newcls(cls, route): return f"{head}, events {hist}: '{route}' made a {t[2][-1][0]}, expected a {ext_newcls(cls, route)}"
+        elif ev[0] == 'mut_obj':
+            _, j, how, k, x = ev
+            if j < len(model) and model[j][0] in MUTABLE:
+                if t[0] != 'mut_obj': return f"{head}, events {hist}: expected a change of object #{j}, got {t[0]}"
+                bits = model[j][1]; n = len(bits)
+                if how == 'invert': bits = ''.join('1' if ch == '0' else '0' for ch in bits)
+                elif how == 'setall1': bits = '1' * n
+                elif how == 'setall0': bits = '0' * n
+                elif how == 'reverse': bits = bits[::-1]
+                elif how in ('append', 'iadd'): bits = x + bits if lsb0 else bits + x
+                elif how == 'prepend': bits = bits + x if lsb0 else x + bits
+                elif how == 'clear': bits = ''
+                elif how == 'delhead': bits = bits[:max(n - k % 5, 0)] if lsb0 else bits[k % 5:]
+                elif how == 'setbit' and n:
+                    p = n - 1 - k % n if lsb0 else k % n
+                    bits = bits[:p] + x[0] + bits[p + 1:]
+                model[j][1] = bits
+            elif t[0] != 'skip': return f"{head}, events {hist}: expected a skipped event, got {t[0]}"
+        # the source itself is changed by its owner only: by 'mut_src' events (whatever it spells afterwards is taken as it is), never by a construction or by a change of a constructed object
+        if ev[0] in ('make', 'mut_obj') and t[1] != prev:
+            return f"{head}, events {hist}: the source (the caller's argument) spelled {prev!r} before this event and spells {t[1]!r} after it - only bitstrings made from it were touched"
+        m = compare(i)
+        if m: return m
+    return None
+
 _KEEP = {}      # objects that survive from one call of a history to a later one (their use must not depend on what happened in between)
 
 def set_opts(o):
@@ -838,7 +1496,7 @@ def run_impl_(c, no_color0):
             if st['op'] == 'set':
                 opts[st['opt']] = st['v']; set_opts(opts); warm.append(('ok', None)); snaps.append(dict(opts))
                 binding.setdefault(opts['lsb0'], bound_methods()); continue
-            warm.append(attempt(lambda: do_call(st), 20 if st['op'] in ('from_obj', 'purecall', 'from_array') else 5)); snaps.append(dict(opts))
+            warm.append(attempt(lambda: do_call(st), 20 if st['op'] in ('from_obj', 'purecall', 'from_array', 'from_ext') else 5)); snaps.append(dict(opts))
             w = warm[-1]
             # no call of a history (other than the program's own assignments to bitstring.options) may leave other option values, or other method bindings, behind
             now = read_opts(saved)
@@ -855,6 +1513,15 @@ def run_impl_(c, no_color0):
             if st['op'] == 'from_array' and len(diffs0) < 3:
                 m = model_from_array(st, w[1]) if w[0] == 'ok' else f"the step raised {w[1]}"
                 if m: diffs0.append([len(warm) - 1, st, list(w), ['reference', m], dict(opts)])
+            if st['op'] == 'from_ext' and len(diffs0) < 3:
+                m = model_from_ext(st, w[1], opts) if w[0] == 'ok' else f"the step raised {w[1]}"
+                if m: diffs0.append([len(warm) - 1, st, list(w), ['reference', m], dict(opts)])
+            if st['op'] == 'nest' and len(diffs0) < 3:
+                m = model_nest(st, w, opts)
+                if m: diffs0.append([len(warm) - 1, st, list(w), ['reference', m], dict(opts)])
+            if st['op'] == 'refused' and len(diffs0) < 3 and (w[0] != 'err' or w[1] == 'OutOfFuel'):
+                what = repr(refused_string(st))[:160] + " via '" + st['how'] + "'" if 'call' not in st else st['call']
+                diffs0.append([len(warm) - 1, dict(st, bad=st.get('bad', '')[:40]), list(w), ['reference', f"the call {what} ({st['cls']}) has to be refused (malformed token / value that does not fit / over-deep nesting); it gave {str(w)[:120]}"], dict(opts)])
             if st['op'] == 'optprobe' and len(diffs0) < 3:
                 e = model_optprobe(st, opts)
                 bad = (w[0] != 'err' or w[1] not in e[1]) if e[0] == 'err' else (w[0] != 'ok' or w[1] != e[1])
@@ -906,6 +1573,7 @@ def oracle(c, obs):
     if obs[0] != 'ok': return f"history raised {obs}"
     if obs[1]['diffs']:
         i, st, w, r, o = obs[1]['diffs'][0]
+        if r and r[0] == 'reference' and st.get('op') in ('from_ext', 'nest', 'refused'): return f"call #{i} ({st['op']}) under options {o}: {r[1][:1200]} | step: {str(st)[:500]}"
         if r and r[0] == 'reference': return f"call #{i} {str(st)[:600]} under options {o}: {r[1]} (observed: {str(w)[:300]})"
         return f"call #{i} {st} under options {o}: warm interpreter gave {str(w)[:200]}, the same call on cold caches gives {str(r)[:200]}"
     return None
